@@ -81,6 +81,17 @@ def items(tier: str) -> List[Any]:
             seen.add(s)
             per_focus[focus] = per_focus.get(focus, 0) + 1
             out.append((focus, s))
+    # call chains (callees that end the program themselves, checks only behind a return point) around one real check
+    from mc.gen import core, spaces  # pylint: disable=import-outside-toplevel
+
+    for focus, tracked in (("is-updatable", ["txn OnCompletion", "int UpdateApplication", "!="]), ("rekey-to", ["txn RekeyTo", "global ZeroAddress", "=="]),
+                           ("can-close-account", ["txn TypeEnum", "int pay", "!="])):
+        for prog, ats in spaces.call_chains(tracked):
+            for subs_first in (False, True):
+                s = core.render(prog, ats, subs_first=subs_first)
+                if s not in seen:
+                    seen.add(s)
+                    out.append((focus, s))
     return out
 
 
@@ -118,6 +129,26 @@ def block_validated(ctx: Any, pred: Callable[[Any], bool]) -> bool:
     return True
 
 
+def _truth_applicable(det: str, lines: Any) -> bool:
+    """The O2 clause is not applied where a recorded known finding (C03: fee lower bounds are not tracked; constant-first
+    ordered comparisons of GroupSize are read mirrored) already explains a report through an excluding block."""
+    if det == "missing-fee-check":
+        reads = [i for i, l in enumerate(lines) if l.op in ("txn", "gtxn", "gtxns") and l.args and l.args[-1] == "Fee"]
+        if len(reads) != 1 or any(l.op == "!" for l in lines):
+            return False
+        i = reads[0]
+        if i + 2 < len(lines) and lines[i + 1].op == "int" and lines[i + 2].op in ("<=", "<", "=="):
+            return True
+        if i >= 1 and i + 1 < len(lines) and lines[i - 1].op == "int" and lines[i + 1].op in (">=", ">", "=="):
+            return True
+        return False
+    if det == "group-size-check":
+        for i in range(len(lines) - 2):
+            if lines[i].op == "int" and lines[i + 1].text == "global GroupSize" and lines[i + 2].op in ("<", "<=", ">", ">="):
+                return False
+    return True
+
+
 def worker(item: Any, res: runner.Result) -> None:  # pylint: disable=too-many-locals,too-many-branches,too-many-statements
     from mc import harness  # pylint: disable=import-outside-toplevel
     from mc.asm import tokenize  # pylint: disable=import-outside-toplevel
@@ -138,6 +169,28 @@ def worker(item: Any, res: runner.Result) -> None:  # pylint: disable=too-many-l
     idx_of_line = {l.lineno: i for i, l in enumerate(lines)}
     text_of_line = {l.lineno: l.text for l in lines}
     preds = excluded_predicates()
+    # ground truth for "no block at which the dangerous value has been excluded" on direct-check programs: the blocks that
+    # admit the value on some accepting abstract path (O2, upper bracket); computed lazily per detector
+    truth: Dict[str, Any] = {}
+    av_box: List[Any] = []
+
+    def really_admitting(det_: str) -> Any:
+        if det_ not in truth:
+            if not av_box:
+                from mc import detect  # pylint: disable=import-outside-toplevel
+                from mc.machine import Program  # pylint: disable=import-outside-toplevel
+
+                class _Case:  # pylint: disable=too-few-public-methods
+                    pass
+
+                cv = _Case()
+                cv.g = g  # type: ignore
+                cv.prog = Program(src, lines)  # type: ignore
+                av_box.append(detect.AbstractVerdict(cv))
+            truth[det_] = av_box[0].unvalidated(det_)
+        return truth[det_]
+
+    direct = item[0] in DETECTORS
     depths: Set[int] = set()
     npaths = 0
     for det in DETECTORS:
@@ -215,6 +268,15 @@ def worker(item: Any, res: runner.Result) -> None:  # pylint: disable=too-many-l
                         res.violation("C02.path-contains-validated-block", item, detector=det, block=b.entry_instr.line,
                                       path=[x.idx for x in path])
                         break
+                # --- ... nor a block at which the value is excluded in fact (direct-check programs; the two recorded
+                # causes of spurious reports - fee lower bounds, constant-first ordered GroupSize comparisons - are kept out)
+                if direct and _truth_applicable(det, lines):
+                    adm = really_admitting(det)
+                    off = [g.lineno(i) for i in rb if i not in adm]
+                    res.count("paths_checked_against_o2")
+                    if off:
+                        res.violation("C02.path-through-block-that-excludes-the-value", item, detector=det, block=off[0], blocks=off,
+                                      path=[x.idx for x in path])
                 # --- renderings
                 short = " -> ".join(str(b.idx) for b in path)
                 if out._short_notation(path) != short or js["paths"][pi]["short"] != short:  # pylint: disable=protected-access
